@@ -64,11 +64,11 @@ ASSUMPTIONS = [
     "after a backslash, in the enclosing brackets, before and after them); the return expression "
     "is 3*x + 5*y + G + one term per body line, G a reference of the cells' space",
     "excluded as unsupported, exactly: more than one lambda expression in the statement / on the "
-    "line (formula.py:234-236 has_lambda 'only one lambda expression', :278-279 ValueError 'more "
+    "line (formula.py:282-289 has_lambda 'only one lambda expression', :348-349 ValueError 'more "
     "than 1 lambda expressions found'); async def and other non-def statements (is_funcdef "
-    "formula.py:100-113 -> ValueError 'invalid function or lambda definition'); a def that calls "
+    "formula.py:139-152 -> ValueError 'invalid function or lambda definition'); a def that calls "
     "itself by its def name or whose defaults / annotations need global names (the def is "
-    "executed in an empty namespace, formula.py:347-349)",
+    "executed in an empty namespace, formula.py:417-419)",
     "multi-line documentation strings are not set on cells with a one-line body (bound of the "
     "model and of the histories)",
     "the history run on a layout is one fixed behaviour of the model chosen by the layout "
@@ -512,8 +512,7 @@ def _inv_label(inv):
 
 TIERS = {
     "quick": dict(mbt="MBT_MxFormula_quick.cfg",
-                  mc=[dict(cfg="MC_MxFormula_quick.cfg", coverage=True, workers=6),
-                      dict(cfg="MC_MxFormula_kf.cfg", workers=1)]),
+                  mc=[dict(cfg="MC_MxFormula_quick.cfg", coverage=True, workers=8)]),
     "thorough": dict(mbt="MBT_MxFormula_thorough.cfg",
                      mc=[dict(cfg="MC_MxFormula_thorough.cfg", workers=8),
                          dict(cfg="MC_MxFormula_deep.cfg", workers=5),
